@@ -805,7 +805,10 @@ LITS_DOC = """(* Gen/Gen_Lits.v  GENERATED by tools/translate.py from the source
                            parameters first, then the body.  Docstrings and any other statement
                            that consists of a bare string are NOT included, nor are the arguments of
                            logger.<level>(...) / <x>.logger.<level>(...) calls (text of log records).
-                           Parts of f-strings are.
+                           Parts of f-strings are.  The keyword NAMES of calls to the element constructors
+                           (new_ele, new_ele_ns, new_ele_nsmap, sub_ele, sub_ele_ns, Element, SubElement), other
+                           than attrs / nsmap / ns / parser / attrib, are harvested as strings at the position of the
+                           keyword: they are the names of the XML attributes  (new_ele("filter", type=type)).
      I_<id> : list N       the int constants (bool excluded; a negative number  -3  appears as 3),
                            emitted only when there is at least one.
      F_<id> : list bytes   the float constants as Python repr text, only when there is at least one.
@@ -843,6 +846,11 @@ def is_log_call(n):
     r = n.func.value
     return (isinstance(r, ast.Name) and r.id == 'logger') or (isinstance(r, ast.Attribute) and r.attr == 'logger')
 
+ELEMENT_CTORS = ('new_ele', 'new_ele_ns', 'new_ele_nsmap', 'sub_ele', 'sub_ele_ns', 'Element', 'SubElement')
+ELEMENT_CTOR_OWN_KEYWORDS = ('attrs', 'nsmap', 'ns', 'parser', 'attrib')
+def callee_name(c):
+    return c.func.attr if isinstance(c.func, ast.Attribute) else c.func.id if isinstance(c.func, ast.Name) else None
+
 def harvest(path, nodes, skip=()):
     """(strs, ints, floats) of the constants below the given ast nodes, in source order; bare string
     statements (docstrings) and the sub-trees listed in `skip` are left out."""
@@ -860,6 +868,11 @@ def harvest(path, nodes, skip=()):
             else:
                 raise TranslateError(path, n, 'constant of type %s: not understood' % type(v).__name__)
             return
+        if isinstance(n, ast.Call) and callee_name(n) in ELEMENT_CTORS:
+            # new_ele("filter", type=type): the keyword IS the XML attribute name
+            for kw in n.keywords:
+                if kw.arg is not None and kw.arg not in ELEMENT_CTOR_OWN_KEYWORDS:
+                    found.append(((kw.lineno, kw.col_offset, len(found)), kw.arg))
         for c in ast.iter_child_nodes(n):
             visit(c)
     for n in nodes:
